@@ -1000,7 +1000,7 @@ def python_outputs_cover(A: Analysis, col: Collector, rule: str):
     # the variable holding the declared output names
     names_var = None
     for n in walk_own(fn.node):
-        if isinstance(n, ast.Assign) and isinstance(n.value, (ast.ListComp, ast.GeneratorExp)) and "Outputs" in norm(n.value):
+        if isinstance(n, ast.Assign) and isinstance(n.value, (ast.ListComp, ast.GeneratorExp)) and "Outputs" in norm(A.expand(n.value, fn)):
             if isinstance(n.targets[0], ast.Name):
                 names_var = n.targets[0].id
     if names_var is None:
@@ -1503,7 +1503,8 @@ def staged_inputs_rule(A: Analysis, col: Collector, rule: str):
     pr = A.func("pydra.compose.python.PythonTask._run")
     col.scope(pr.qualname)
     for c in A.calls(pr):
-        if isinstance(c.func, ast.Attribute) and c.func.attr == "function" and dotted(c.func.value) == "self":
+        callee = A.expand(c.func, pr)
+        if isinstance(callee, ast.Attribute) and callee.attr == "function" and dotted(callee.value) == "self":
             n_sites += 1
             roots = None
             for k in c.keywords:
@@ -1598,7 +1599,12 @@ def rule_shape(A: Analysis, col: Collector, rule: str):
         col.fail(rule, rs.qualname, f"requirement-set-quantifier:{q[0]}", f"a requirement set is evaluated as `{norm(rets[0].value if rets else q[1], 70)}`: the property requires ALL its fields to be set (a set with one satisfied member would wrongly allow the task to run)", A.loc(q[1]))
     rv = A.func("pydra.compose.base.task.Task._rule_violations")
     col.scope(rv.qualname)
-    q2 = _quantifier(rv.node, "requires")
+    # the evaluation may be split over private helper methods of Task that _rule_violations calls
+    tcls_ = rv.cls
+    rv_scope = [rv] + [tcls_.methods[c.func.attr] for c in A.calls(rv) if isinstance(c.func, ast.Attribute) and dotted(c.func.value) == "self" and tcls_ is not None and c.func.attr in tcls_.methods]
+    for h_ in rv_scope[1:]:
+        col.scope(h_.qualname)
+    q2 = next((q for q in (_quantifier(f_.node, "requires") for f_ in rv_scope) if q is not None), None)
     if q2 is None:
         raise AnalysisError("C31: Task._rule_violations no longer quantifies over field.requires with any()/all()")
     par = getattr(q2[1], "_parent", None)
@@ -1609,7 +1615,7 @@ def rule_shape(A: Analysis, col: Collector, rule: str):
     else:
         col.fail(rule, rv.qualname, f"requires-quantifier:{'not-' if negated else ''}{q2[0]}", f"the requirements of a field are tested with `{norm(par if negated else q2[1], 70)}`: the property asks for AT LEAST ONE satisfied requirement set", A.loc(q2[1]))
     # exclusive groups
-    xloops = [l for l in walk_own(rv.node) if isinstance(l, ast.For) and isinstance(l.iter, ast.Attribute) and l.iter.attr == "_xor"]
+    xloops = [l for f_ in rv_scope for l in walk_own(f_.node) if isinstance(l, ast.For) and isinstance(l.iter, ast.Attribute) and l.iter.attr == "_xor"]
     A.anchor("loop over self._xor in Task._rule_violations", xloops)
     appended_lists = set()
     for l in xloops:
@@ -1638,8 +1644,22 @@ def rule_shape(A: Analysis, col: Collector, rule: str):
     apps = [c for c in A.calls(rv) if isinstance(c.func, ast.Attribute) and c.func.attr == "append" and isinstance(c.func.value, ast.Name)]
     A.anchor("errors.append(...) in Task._rule_violations", apps)
     tgt = {c.func.value.id for c in apps}
-    if len(rets) == 1 and isinstance(rets[0].value, ast.Name) and tgt == {rets[0].value.id} and len(apps) >= 4:
-        col.ok(rule, f"all {len(apps)} violation messages are appended to the one list that is returned", A.loc(rets[0]))
+    # messages collected by a helper that returns its own list count when that list is extended into the returned one
+    n_helper = 0
+    helpers_ok = True
+    for h_ in rv_scope[1:]:
+        happs = [c for c in A.calls(h_) if isinstance(c.func, ast.Attribute) and c.func.attr == "append" and isinstance(c.func.value, ast.Name)]
+        if not happs:
+            continue
+        hrets = [n for n in walk_own(h_.node) if isinstance(n, ast.Return)]
+        own = len(hrets) == 1 and isinstance(hrets[0].value, ast.Name) and {c.func.value.id for c in happs} == {hrets[0].value.id}
+        consumed = any(isinstance(c.func, ast.Attribute) and c.func.attr in ("extend", "__iadd__") and isinstance(c.func.value, ast.Name) and c.func.value.id in tgt and c.args and isinstance(c.args[0], ast.Call) and isinstance(c.args[0].func, ast.Attribute) and c.args[0].func.attr == h_.name for c in A.calls(rv))
+        if own and consumed:
+            n_helper += len(happs)
+        else:
+            helpers_ok = False
+    if helpers_ok and len(rets) == 1 and isinstance(rets[0].value, ast.Name) and tgt == {rets[0].value.id} and len(apps) + n_helper >= 4:
+        col.ok(rule, f"all {len(apps) + n_helper} violation messages are appended to the one list that is returned", A.loc(rets[0]))
     else:
         col.fail(rule, rv.qualname, "violations-not-all-returned", f"violations are appended to {sorted(tgt)} ({len(apps)} sites) but the function returns `{norm(rets[0].value) if rets else None}` ({len(rets)} return statements)", A.loc(rv.node))
     # nothing skips the checks of a field but a lazy value
